@@ -128,7 +128,7 @@ def stepTok (cur : ECmd) (posIndex : Nat) (isEscaped : Bool) (st : PS) (tok : By
       | none =>
         match ParsedArg.toShort tok with
         | some sf =>
-          match parseShortflags cur (tok.length + 1) sf [] with
+          match parseShortflags cur (sf.chars.length + 1) sf [] with
           | (_, some a, rest) => some (cur, posIndex, isEscaped, if (rest.nextValueOs).2.isNone then .opt a 1 else .valueDone)
           | (_, none, _) =>
             if posAllowsHyphen cur posIndex then (parsePositional cur posIndex isEscaped st).map fun r => (cur, r.2, isEscaped, r.1)
@@ -199,7 +199,7 @@ def optionCands (c : ECmd) (tok : Bytes) : List Cand :=
       match ParsedArg.toShort tok with
       | some sf =>
         if sf.isNegativeNumber then [] else
-        match parseShortflags c (tok.length + 1) sf [] with
+        match parseShortflags c (sf.chars.length + 1) sf [] with
         | (lead, some a, rest) =>
           let (rest1, hasEq) := match rest.nextFlag with
             | (r, .ch ch) => if ch == [Bytes.eq] then (r, true) else (rest, false)
@@ -236,8 +236,17 @@ def rawCands (c : ECmd) (posIndex : Nat) (tok : Bytes) : PS → List Cand
       optionCands c tok
      else [])
 where
-  /-- `scs.sort(); scs.dedup()` as far as membership goes -/
-  dedupSubs (l : List Cand) : List Cand := l.foldl (fun acc x => if acc.contains x then acc else acc ++ [x]) []
+  /-- `scs.sort(); scs.dedup()`: ordered by value (byte-wise), equal neighbours merged; the order matters because
+  the later id de-duplication keeps the FIRST candidate of each subcommand -/
+  dedupSubs (l : List Cand) : List Cand :=
+    (l.foldl (fun acc x => insertByValue x acc) []).foldl (fun acc x => if acc.contains x then acc else acc ++ [x]) []
+  insertByValue (x : Cand) : List Cand → List Cand
+    | [] => [x]
+    | y :: ys => if bytesLe y.value x.value then y :: insertByValue x ys else x :: y :: ys
+  bytesLe : Bytes → Bytes → Bool
+    | [], _ => true
+    | _ :: _, [] => false
+    | a :: as, b :: bs => a < b || (a == b && bytesLe as bs)
 
 /-- the token loop of `complete`: `idx` = index of the token under the cursor among `toks` (already
 without the binary name), `fuel` = number of tokens -/
